@@ -82,7 +82,9 @@ def build_native():
             env = dict(os.environ, CARGO_NET_OFFLINE="true", PYO3_BUILD_EXTENSION_MODULE="1",
                        PYO3_PYTHON=PY)
             env.pop("PYO3_CONFIG_FILE", None)
-            tgt = os.path.join(WORK, "rust-target")
+            # one cargo target directory per source hash: cargo decides freshness by mtime, so a target
+            # directory shared between checkouts could hand back a library built from another tree
+            tgt = os.path.join(WORK, "rust-target", rh)
             p = subprocess.run(
                 ["cargo", "build", "--release", "--offline", "--manifest-path",
                  os.path.join(REPO, "rust", "Cargo.toml"), "--target-dir", tgt],
@@ -97,7 +99,9 @@ def build_native():
             ds = sorted((d for d in os.listdir(nd) if d != rh), key=lambda d: os.path.getmtime(os.path.join(nd, d)))
             for d in ds[:-6]:
                 shutil.rmtree(os.path.join(nd, d), ignore_errors=True)
-    return "" if _same_file(out, installed) else out
+                shutil.rmtree(os.path.join(WORK, "rust-target", d), ignore_errors=True)
+        same = _same_file(out, installed)
+    return "" if same else out
 
 
 def child_env(hashseed="0", extra=None, pyc=None):
